@@ -75,7 +75,7 @@ func guard(d time.Duration, f func() error) string {
 func retry(total time.Duration, f func() error) string {
 	deadline := time.Now().Add(total)
 	for {
-		r := guard(5*time.Second, f)
+		r := guard(3*time.Second, f)
 		if r == "ok" || r == "hang" || time.Now().After(deadline) {
 			return r
 		}
@@ -85,18 +85,18 @@ func retry(total time.Duration, f func() error) string {
 
 func twice(f func() error) func(env *tenv) (string, string, string) {
 	return func(env *tenv) (string, string, string) {
-		first := guard(5*time.Second, f)
+		first := guard(3*time.Second, f)
 		time.Sleep(2 * time.Millisecond) // let the connection goroutine finish its bookkeeping
 		next := "ok"
 		for i := 0; i < 2 && next == "ok"; i++ {
-			next = retry(3*time.Second, f)
+			next = retry(2*time.Second, f)
 		}
 		return first, next, "intact"
 	}
 }
 
 func ctx3() (context.Context, context.CancelFunc) {
-	return context.WithTimeout(context.Background(), 3*time.Second)
+	return context.WithTimeout(context.Background(), 2*time.Second)
 }
 
 func tscenarios() []tscenario {
@@ -257,15 +257,15 @@ func (s *tscenario) body(env *tenv) (string, string, string) {
 			return w.WriteMessages(ctx, kafka.Message{Value: []byte(v)})
 		}
 		// the Writer retries internally: the call that hits the cut must SUCCEED over a new connection
-		first := guard(6*time.Second, write)
+		first := guard(4*time.Second, write)
 		time.Sleep(2 * time.Millisecond)
 		next := "ok"
 		for j := 0; j < 2 && next == "ok"; j++ {
-			next = guard(6*time.Second, write)
+			next = guard(4*time.Second, write)
 			if next == "err" && first == "err" && i < len(vals) {
 				// the Transport was still holding the failed initial metadata state: allow one more submission
 				time.Sleep(60 * time.Millisecond)
-				next = guard(6*time.Second, write)
+				next = guard(4*time.Second, write)
 			}
 		}
 		go w.Close()
@@ -299,7 +299,7 @@ func newEnv() *tenv {
 		b.Append(connfake.Msg{Key: "k", Value: fmt.Sprintf("seed%d", i)})
 	}
 	tr := &kafka.Transport{Dial: b.Dial, DialTimeout: 2 * time.Second, IdleTimeout: 30 * time.Second, MetadataTTL: 40 * time.Millisecond, ClientID: "verif"}
-	return &tenv{b: b, tr: tr, cl: &kafka.Client{Addr: taddr, Transport: tr, Timeout: 3 * time.Second}}
+	return &tenv{b: b, tr: tr, cl: &kafka.Client{Addr: taddr, Transport: tr, Timeout: 2 * time.Second}}
 }
 
 func eventsString(evs []kafka.VerifEvent) string {
@@ -388,8 +388,7 @@ func runT(s *tscenario, k int) (impl string, trace string, frameLen int) {
 //
 //	lo <cut timestamp|none> <true first> <true last> <frame len> <k>\t<call> <first> <last> <error code>
 func multiPart(out *bufio.Writer, r *rand.Rand, thorough bool) (n int) {
-	bad := 0
-	for nth := 1; nth <= 3 && bad < 5; nth++ {
+	for nth := 1; nth <= 3 && badTotal < badBudget; nth++ {
 		flen := 41
 		for _, k := range cuts(r, flen, thorough, 4) {
 			env := newEnv()
@@ -397,7 +396,7 @@ func multiPart(out *bufio.Writer, r *rand.Rand, thorough bool) (n int) {
 				env.b.Cut(2, nth, k)
 			}
 			var impl string
-			res := guard(5*time.Second, func() error {
+			res := guard(3*time.Second, func() error {
 				ctx, cancel := ctx3()
 				defer cancel()
 				resp, err := env.cl.ListOffsets(ctx, &kafka.ListOffsetsRequest{Topics: map[string][]kafka.OffsetRequest{
@@ -422,7 +421,7 @@ func multiPart(out *bufio.Writer, r *rand.Rand, thorough bool) (n int) {
 			})
 			if res == "hang" {
 				impl = "hang - - -"
-				bad++
+				badTotal++
 			}
 			cutTs := "none"
 			if ts := env.b.CutTimestamp(); ts != 0 {
@@ -443,6 +442,12 @@ func multiPart(out *bufio.Writer, r *rand.Rand, thorough bool) (n int) {
 //
 //	sm <api> <cut key> <parts> <frame len> <k>\t<call> <entries>     strict merges: error, or ALL entries
 //	lo3 <cut broker|none> <frame len> <k>\t<call> <p0 last:err> <p1 last:err> <p2 last:err>
+// badTotal counts hung / failing end-to-end cases over all scenario families: each one costs its watchdogs, a handful
+// is enough for the replay, so every family stops generating once the budget is spent.
+var badTotal int
+
+const badBudget = 4
+
 func multiBroker(out *bufio.Writer, r *rand.Rand, thorough bool) (n int) {
 	type api struct {
 		name   string
@@ -507,10 +512,12 @@ func multiBroker(out *bufio.Writer, r *rand.Rand, thorough bool) (n int) {
 	newCl := func() (*connfake.TCluster, *kafka.Transport, *kafka.Client) {
 		c := connfake.NewTCluster(ttopic, 3, 3)
 		tr := &kafka.Transport{Dial: c.Dial, DialTimeout: 2 * time.Second, MetadataTTL: time.Hour, ClientID: "verif"}
-		return c, tr, &kafka.Client{Addr: taddr, Transport: tr, Timeout: 3 * time.Second}
+		return c, tr, &kafka.Client{Addr: taddr, Transport: tr, Timeout: 2 * time.Second}
 	}
-	bad := 0
 	for _, a := range apis {
+		if badTotal >= badBudget {
+			break
+		}
 		c0, tr0, cl0 := newCl()
 		if _, err := a.call(cl0); err != nil {
 			fmt.Fprintf(out, "sm %s %d %d 0 0\tsetup-failed 0\n", a.name, a.cutKey, a.parts)
@@ -518,19 +525,19 @@ func multiBroker(out *bufio.Writer, r *rand.Rand, thorough bool) (n int) {
 		}
 		flen := c0.LastFrameLen(a.cutKey)
 		go tr0.CloseIdleConnections()
-		for nth := 1; nth <= a.parts && bad < 5; nth++ {
+		for nth := 1; nth <= a.parts && badTotal < badBudget; nth++ {
 			for _, k := range cuts(r, flen, thorough, 3) {
 				c, tr, cl := newCl()
 				if k < flen {
 					c.Cut(a.cutKey, nth, k)
 				}
 				impl := "hang 0"
-				if guard(5*time.Second, func() error {
+				if guard(3*time.Second, func() error {
 					cnt, err := a.call(cl)
 					impl = fmt.Sprintf("%s %d", outcome(err), cnt)
 					return nil
 				}) == "hang" {
-					bad++
+					badTotal++
 				}
 				go tr.CloseIdleConnections()
 				fmt.Fprintf(out, "sm %s %d %d %d %d\t%s\n", a.name, a.cutKey, a.parts, flen, k, impl)
@@ -540,14 +547,14 @@ func multiBroker(out *bufio.Writer, r *rand.Rand, thorough bool) (n int) {
 	}
 	// ListOffsets over three partitions with three leaders: per-partition isolation (expected value from the C19 model)
 	flen := 41
-	for nth := 1; nth <= 3 && bad < 5; nth++ {
+	for nth := 1; nth <= 3 && badTotal < badBudget; nth++ {
 		for _, k := range cuts(r, flen, thorough, 3) {
 			c, tr, cl := newCl()
 			if k < flen {
 				c.Cut(2, nth, k)
 			}
 			impl := "hang - - -"
-			if guard(5*time.Second, func() error {
+			if guard(3*time.Second, func() error {
 				ctx, cancel := ctx3()
 				defer cancel()
 				resp, err := cl.ListOffsets(ctx, &kafka.ListOffsetsRequest{Topics: map[string][]kafka.OffsetRequest{
@@ -571,7 +578,7 @@ func multiBroker(out *bufio.Writer, r *rand.Rand, thorough bool) (n int) {
 				impl = fmt.Sprintf("ok %s %s %s", ps[0], ps[1], ps[2])
 				return nil
 			}) == "hang" {
-				bad++
+				badTotal++
 			}
 			cutOn := "none"
 			if b := c.CutBroker(); b != 0 {
@@ -586,10 +593,9 @@ func multiBroker(out *bufio.Writer, r *rand.Rand, thorough bool) (n int) {
 }
 
 func transportPath(out *bufio.Writer, r *rand.Rand, thorough bool) (n int, slowest time.Duration) {
-	bad := 0
 	for _, s := range tscenarios() {
 		s := s
-		if bad >= 6 {
+		if badTotal >= badBudget {
 			break // every failing case costs its watchdogs; a handful is enough for the replay
 		}
 		_, _, flen := runT(&s, -1)
@@ -610,7 +616,7 @@ func transportPath(out *bufio.Writer, r *rand.Rand, thorough bool) (n int, slowe
 				slowest = d
 			}
 			if f := strings.Fields(impl); len(f) == 4 && (f[1] != "ok" || f[0] == "hang") {
-				if bad++; bad >= 6 {
+				if badTotal++; badTotal >= badBudget {
 					fmt.Fprintf(out, "tp %s %d %d\t%s\n", s.name, flen, k, impl)
 					fmt.Fprintf(out, "tt %s %d %s\taccept\n", s.name, k, trace)
 					break
